@@ -854,7 +854,7 @@ theorem nested_static_context_can_write :
       (∃ h body, p = [.call h body] ∧ h.kind = .staticcall) ∧ (runTx 5 1000000 p v).1 = .ok ∧ (runTx 5 1000000 p v).2.1.native ≠ v.native := by
   let writer : Action (List Nat) := fun ro n => if ro then (false, n, []) else (true, 7 :: n, [7])
   let hd (k : FxVerif.Model.C09.Kind) : CallHdr (List Nat) :=
-    { callc := 10, cap := 500000, stip := 0, kind := k, xfer := none, swallow := false, pOk := 5, pFail := 5 }
-  refine ⟨[.call (hd .staticcall) [.pre (hd .call) 100 writer]], ⟨fun _ => 0, [], []⟩, ⟨_, _, rfl, rfl⟩, ?_, ?_⟩ <;> decide
+    { callc := 10, cap := 500000, stip := 0, kind := k, xfer := none, funded := fun _ => true, swallow := false, pOk := 5, pFail := 5 }
+  refine ⟨[.call (hd .staticcall) [Prog.preA (hd .call) 100 writer]], ⟨fun _ => 0, [], []⟩, ⟨_, _, rfl, rfl⟩, ?_, ?_⟩ <;> decide
 
 end FxVerif.Props.C10
